@@ -2,7 +2,7 @@
    squared form executed by the model), first-order Raman pump gain. *)
 From Coq Require Import Reals Lra Permutation QArith Qreals List.
 Import ListNotations.
-From Verif Require Import Model.Fiber.
+From Verif Require Import Model.Fiber Proofs.Fiber.
 Open Scope R_scope.
 
 (* the update performed by Fiber / Roadm / Edfa .propagate:  x := sqrt(x**2 + contribution**2) *)
@@ -102,4 +102,81 @@ Proof.
   intros base z ps Hz HF. pose proof (pumps_gain_nonneg z ps Hz HF) as H.
   destruct (Req_dec (pumps_gain z ps) 0) as [->|Hne]; [rewrite Rplus_0_r; lra|].
   left. apply exp_increasing. lra.
+Qed.
+
+(* ------------------------------------------------------------------------------------------------
+   Euler scheme at zero power vs the exponential attenuation: the discretisation bound *)
+Definition prod1m (xs : list R) : R := fold_right (fun x p => (1 - x) * p) 1 xs.
+Definition rsum (xs : list R) : R := fold_right Rplus 0 xs.
+
+Lemma ln_le_sub1 : forall y, 0 < y -> ln y <= y - 1.
+Proof.
+  intros y Hy. pose proof (exp_ineq1_le (ln y)) as H. rewrite exp_ln in H by exact Hy. lra.
+Qed.
+
+Lemma ln_1m_bounds : forall x, 0 <= x <= 1 / 2 -> - x - 2 * (x * x) <= ln (1 - x) <= - x.
+Proof.
+  intros x [H0 H1]. assert (0 < 1 - x) as Hp by lra. split.
+  - assert (- ln (1 - x) <= x + 2 * (x * x)); [|lra].
+    rewrite <- ln_Rinv by exact Hp.
+    eapply Rle_trans; [apply ln_le_sub1; apply Rinv_0_lt_compat; exact Hp|].
+    assert (/ (1 - x) - 1 = x * / (1 - x)) as -> by (field; lra).
+    assert (/ (1 - x) <= 2) as Hi.
+    { replace 2 with (/ (1 / 2)) by field. apply Rinv_le_contravar; lra. }
+    assert (x * / (1 - x) = x + x * x * / (1 - x)) as -> by (field; lra).
+    assert (0 <= x * x) by nra. nra.
+  - pose proof (ln_le_sub1 (1 - x) Hp). lra.
+Qed.
+
+Lemma prod1m_pos : forall xs, Forall (fun x => 0 <= x <= 1 / 2) xs -> 0 < prod1m xs.
+Proof.
+  induction 1 as [|x t Hx HF IH]; cbn [prod1m fold_right]; [lra|]. fold (prod1m t).
+  apply Rmult_lt_0_compat; [lra|exact IH].
+Qed.
+
+Lemma euler_vs_budget : forall xs, Forall (fun x => 0 <= x <= 1 / 2) xs ->
+  - 2 * rsum (map (fun x => x * x) xs) <= ln (prod1m xs) + rsum xs <= 0.
+Proof.
+  induction 1 as [|x t Hx HF IH]; cbn [prod1m rsum map fold_right].
+  - rewrite ln_1. lra.
+  - fold (prod1m t). fold (rsum t). fold (rsum (map (fun x => x * x) t)).
+    rewrite ln_mult; [|lra|apply prod1m_pos; exact HF].
+    pose proof (ln_1m_bounds x Hx). lra.
+Qed.
+
+(* the rational zero-power factor of the model is this product *)
+Fixpoint grid_dzs (grid : list (Q * Q)) : list Q :=
+  match grid with
+  | [] => []
+  | (z0, _) :: t =>
+      match t with
+      | [] => []
+      | (z1, _) :: _ => (z1 - z0)%Q :: grid_dzs t
+      end
+  end.
+
+Lemma Q2R_1 : Q2R 1 = 1.
+Proof. unfold Q2R. cbn. field. Qed.
+
+Lemma step_prod_R : forall a grid,
+  Q2R (step_prod a grid) = prod1m (map (fun dz => Q2R a * Q2R dz) (grid_dzs grid)).
+Proof.
+  intros a grid. induction grid as [|[z0 l0] t IH].
+  - cbn. apply Q2R_1.
+  - destruct t as [|[z1 l1] t'].
+    + cbn. apply Q2R_1.
+    + rewrite step_prod_step. change (grid_dzs ((z0, l0) :: (z1, l1) :: t')) with ((z1 - z0)%Q :: grid_dzs ((z1, l1) :: t')).
+      cbn [map prod1m fold_right]. fold (prod1m (map (fun dz => Q2R a * Q2R dz) (grid_dzs ((z1, l1) :: t')))).
+      rewrite <- IH, Q2R_mult, Q2R_minus, Q2R_mult, Q2R_1. reflexivity.
+Qed.
+
+(* ln of the Euler attenuation over the grid vs -alpha * length: off by at most 2 * sum (alpha dz_k)^2 *)
+Theorem euler_discretisation_bound : forall a grid,
+  Forall (fun dz => 0 <= Q2R a * Q2R dz <= 1 / 2) (grid_dzs grid) ->
+  let xs := map (fun dz => Q2R a * Q2R dz) (grid_dzs grid) in
+  - 2 * rsum (map (fun x => x * x) xs) <= ln (Q2R (step_prod a grid)) + rsum xs <= 0.
+Proof.
+  intros a grid HF xs. rewrite step_prod_R. apply euler_vs_budget.
+  unfold xs. rewrite Forall_forall in *. intros x Hx. apply in_map_iff in Hx. destruct Hx as [dz [<- Hdz]].
+  apply HF; exact Hdz.
 Qed.
